@@ -55,6 +55,7 @@ theorem envStep_orc_congr (orc₁ orc₂ : Vec → Bool) (e : EnvSt) (q : Q)
   | draw k op => rfl
   | poll => rfl
   | arm b => rfl
+  | mark => rfl
 
 theorem sgen_clock_free (c₁ c₂ s : UInt64) :
     ((SeedGen.init c₁).setSeed s).1.sGen = ((SeedGen.init c₂).setSeed s).1.sGen := by
@@ -122,6 +123,7 @@ theorem allocSeeds_eq (orc : Vec → Bool) (e : EnvSt) (qs : List Q) (g : SeedGe
     | eval x => simp only [answers, countAlloc, allocSeeds]; exact ih _ _ (by simp [envStep, hg])
     | poll => simp only [answers, countAlloc, allocSeeds]; exact ih _ _ (by simp [envStep, hg])
     | arm b => simp only [answers, countAlloc, allocSeeds]; exact ih _ _ (by simp [envStep, hg])
+    | mark => simp only [answers, countAlloc, allocSeeds]; exact ih _ _ (by simp [envStep, hg])
 
 /-! ### `IterationTerminationCondition` -/
 
@@ -169,5 +171,6 @@ theorem iterPolls_eq (orc : Vec → Bool) (e : EnvSt) (m t : Nat) (h : e.ptc = .
       simp only [envStep]
       split <;> simp [h]
     | eval x => simp only [answers, countPoll, pollAnswers]; exact ih _ t (by simp [envStep, h]) hq'
+    | mark => simp only [answers, countPoll, pollAnswers]; exact ih _ t (by simp [envStep, h]) hq'
 
 end OmplModel.RngPlan
